@@ -23,7 +23,7 @@ ASSUMPTIONS = [
     "Modbus/TCP transaction id",
     "contracts are attached by patching goodwe.modbus.* and goodwe.protocol.* (both names) and the AA55 staticmethod",
 ]
-MUST = ["leftover_fragment_histories", "contract_eval_validate_modbus_rtu_response", "contract_eval_validate_modbus_tcp_response",
+MUST = ["stale_duplicate_histories", "leftover_fragment_histories", "contract_eval_validate_modbus_rtu_response", "contract_eval_validate_modbus_tcp_response",
         "contract_eval_validate_aa55_response", "verdict_true", "verdict_false", "verdict_partial", "verdict_rejected",
         "transport_level_results", "malformed_answer_in_two_pieces", "exception_frames_through_transport", "concurrent_transport_cases", "accepted_rtu_read", "accepted_rtu_write", "accepted_rtu_multi", "accepted_tcp_read",
         "accepted_tcp_write", "accepted_tcp_multi", "accepted_aa55"]
@@ -442,6 +442,36 @@ def leftover_fragment_part(part):
                                          {"leftover": True})
 
 
+def stale_duplicate_part(part):
+    """request A completes with frame F; an exact duplicate of F arrives while request B - another register count, a write, a write-multi -
+    is waiting (its own answers are lost): whatever B ends with, it is not F (F is no valid answer to B)"""
+    for transport, framing in (("udp", "rtu"), ("tcp", "tcp")):
+        for ka in (True, False):
+            for stepb, descb in ((["read", 101, 3], {"kind": "read", "reg": 101, "count": 3}),
+                                 (["read", 101, 1], {"kind": "read", "reg": 101, "count": 1}),
+                                 (["write", 101, 7], {"kind": "write", "reg": 101, "value": 7}),
+                                 (["multi", 101, "00010002"], {"kind": "multi", "reg": 101, "count": 2, "data": bytes.fromhex("00010002")})):
+                for D in (0.2, 0.6, 1.3):
+                    sc = {"transport": transport, "framing": framing, "keep_alive": ka, "T": 1, "R": 1, "after": "drop",
+                          "by_reg": {100: [["nowdup", D]], 101: []},
+                          "tasks": [{"start": 0.0, "steps": [["read", 100, 2], ["sleep", 0.1], stepb]}]}
+                    run = engine.run_scenario(sc, quiesce=False)
+                    part.evaluations += 1
+                    part.count("stale_duplicate_histories")
+                    recb = [c for c in run.calls if c["step"][0] != "sleep"][-1] if run.calls else None
+                    part.see(f"staledup|{framing}|{ka}|{stepb[0]}|{D}|{recb['outcome'] if recb else run.stop}")
+                    d = dict(descb, framing=framing, comm=0xF7)
+                    if run.stop:
+                        part.violate(f"C01/{framing}/hang-on-mutated-frame", run.stop, {"staledup": True})
+                    elif recb and recb["outcome"] == "ok":
+                        raw = bytes.fromhex(recb["result"]["raw"])
+                        why = rc.c01_accept_ok(acceptor_desc(d), raw)
+                        if why:
+                            part.violate(f"C01/{framing}/delivered-invalid-result",
+                                         f"keep_alive={ka}: the answer to the previous request (read 100 x2) arrived again {D} s later, while {stepb} was waiting; "
+                                         f"{stepb} completed with {raw.hex()[:60]}: {why}", {"staledup": True})
+
+
 def concurrent_part(spec, part):
     """request A (read cA registers) is in flight when request B (read cB registers) is queued on the same object; the peer answers A's
     transmission with a checksum-correct read answer of B's shape: it must not complete A."""
@@ -495,6 +525,7 @@ def run_shard(spec):
     elif spec["mode"] == "excframes":
         exception_frames_part(part)
         leftover_fragment_part(part)
+        stale_duplicate_part(part)
     else:
         transport_part(spec, part)
     return part
